@@ -3,7 +3,8 @@ per-instance certificate evaluated in Coq on the real matrices)."""
 import numpy as np
 
 from harness.core import Prop
-from harness.props.c11 import make_grid, grid_spec, canon, to_dense, pk, pts, dcoo, zlist, zi
+from harness.props.c11 import (make_grid, grid_spec, embed_spec, BIG_SPECS, canon, to_dense, pk, pts, dcoo,
+                                zlist, zi)
 
 import porepy as pp
 
@@ -31,6 +32,27 @@ def shares_edge_3d(g, neu):
     fn = g.face_nodes.tocsc()
     nodes = [set(int(n) for n in fn[:, f].indices) for f in neu]
     return any(len(nodes[i] & nodes[j]) >= 2 for i in range(len(neu)) for j in range(i))
+
+
+def tilted_partition(case):
+    """Input class of the open finding 'tilted-2d-partition-frame': 2-D grid rotated out of a
+    coordinate-aligned position, discretized in several subproblems."""
+    e = case["grid"].get("embed")
+    return bool(case["dim"] == 2 and case.get("nsub") and e
+                and sorted(abs(x) for x in e["q"]) not in ([0, 0, 0, 1],))
+
+
+def geom(g):
+    """(cell_centers, face_centers, face_normals) as 3 x n arrays in the coordinates the
+    displacement components refer to: the grid's own coordinates, except for a 2-D grid that
+    does not lie in the xy-plane, where Mpsa works in the in-plane coordinates given by
+    pp.map_geometry.map_grid (same call as in mpsa.py:_reduce_grid_constit_2d)."""
+    arrs = (g.cell_centers, g.face_centers, g.face_normals)
+    if g.dim == 2 and any(a[2].any() for a in arrs):
+        cc, fn, fc, _, _, _ = pp.map_geometry.map_grid(g)
+        pad = lambda a: np.vstack([a, np.zeros((1, a.shape[1]))])
+        return pad(cc), pad(fc), pad(fn)
+    return arrs
 
 
 class C13(Prop):
@@ -97,8 +119,16 @@ class C13(Prop):
 
     # ------------------------------------------------------------------ generation
     def generate(self, rng, n, tier):
-        for _ in range(n):
+        # larger oracle-only cases (see harness/props/c11.py BIG_SPECS)
+        big = BIG_SPECS[:1] if tier == "quick" else BIG_SPECS
+        nbig = min(len(big), max(0, n - 1)) if n >= 4 else 0
+        for it in range(n):
+            nsub_big = None
             while True:
+                if it >= n - nbig:
+                    spec, dim, nsub_big = big[it - (n - nbig)]
+                    spec = dict(spec)
+                    break
                 spec, dim = grid_spec(rng, tier)
                 if dim == 3 and tier != "quick":
                     # keep the 3-D matrices small enough for the Coq certificate
@@ -108,11 +138,14 @@ class C13(Prop):
                         continue
                 break
             g = make_grid(spec)
-            if rng.random() < 0.7:
+            if rng.random() < 0.7 or (nsub_big is not None and spec["kind"] == "cart" and dim == 3):
                 amp = rng.choice([4, 8, 12])
                 spec["pert"] = [[rng.randint(-amp, amp) for _ in range(dim)]
                                 for _ in range(g.num_nodes)]
                 g = make_grid(spec)
+            if rng.random() < 0.4:
+                # rigid motion / power-of-two scaling; the topology does not change
+                spec["embed"] = embed_spec(rng)
             bfaces = [int(f) for f in g.get_all_boundary_faces()]
             rb = rng.random()
             if rb < 0.2:
@@ -142,8 +175,14 @@ class C13(Prop):
             if dim == 2:
                 b[2] = 0
             fields.append({"A": [[0] * 3] * 3, "b": b})
-            yield {"grid": spec, "dim": dim, "mu": rng.choice([0.5, 1.0, 1.5, 2.0, 3.0]),
-                   "la": rng.choice([0.0, 0.5, 1.0, 2.0, 4.0]), "dir": dirf, "fields": fields}
+            sc = 2.0 ** rng.choice([0, 0, 0, -20, -6, 4, 10])
+            nsub = rng.choice([None, None, 2, 3]) if g.num_cells >= 2 else None
+            case = {"grid": spec, "dim": dim, "mu": sc * rng.choice([0.5, 1.0, 1.5, 2.0, 3.0]),
+                    "la": sc * rng.choice([0.0, 0.5, 1.0, 2.0, 4.0]), "dir": dirf, "fields": fields,
+                    "nsub": nsub}
+            if nsub_big is not None:
+                case.update(nsub=nsub_big or None, oracle_only=True)
+            yield case
 
     # ------------------------------------------------------------------ implementation
     _cache = (None, None)
@@ -163,7 +202,10 @@ class C13(Prop):
         g, bc = self._setup(case)
         nc = g.num_cells
         C = pp.FourthOrderTensor(case["mu"] * np.ones(nc), case["la"] * np.ones(nc))
-        data = pp.initialize_data(g, {}, KW, {"fourth_order_tensor": C, "bc": bc})
+        par = {"fourth_order_tensor": C, "bc": bc}
+        if case.get("nsub"):
+            par["partition_arguments"] = {"num_subproblems": int(case["nsub"])}
+        data = pp.initialize_data(g, {}, KW, par)
         discr = pp.Mpsa(KW)
         # capture the block-diagonal local systems handed to the inverter (monkey-patch, no
         # source hook) to measure their conditioning
@@ -232,32 +274,36 @@ class C13(Prop):
         isneu = np.abs(kinds) == 2
         sgn = np.sign(kinds).astype(float)
         mu, la = case["mu"], case["la"]
-        mscale = max(1.0, np.abs(S).max() if S.size else 0.0, np.abs(BS).max() if BS.size else 0.0)
+        cc, fcs, fns = geom(g)
+        aS, aBS, aDC, aDF = (np.abs(M).sum(axis=1) for M in (S, BS, DC, DF))
         for fld in case["fields"]:
             A = np.array(fld["A"], dtype=float)[:nd, :nd]
             b = np.array(fld["b"], dtype=float)[:nd]
-            uc = A @ g.cell_centers[:nd] + b[:, None]
-            uf = A @ g.face_centers[:nd] + b[:, None]
+            uc = A @ cc[:nd] + b[:, None]
+            uf = A @ fcs[:nd] + b[:, None]
             sig = mu * (A + A.T) + la * np.trace(A) * np.eye(nd)
-            T = sig @ g.face_normals[:nd]
+            T = sig @ fns[:nd]
             bv = np.zeros((nd, nf))
             bv[:, isdir] = uf[:, isdir]
             bv[:, isneu] = sgn[isneu] * T[:, isneu]
             Th = (S @ uc.ravel("F") + BS @ bv.ravel("F")).reshape((nd, nf), order="F")
-            fscale = max(1.0, np.abs(uc).max(), np.abs(bv).max())
-            errT = np.abs(Th - T).max(axis=0)
-            errT[isneu] = 0.0
-            if errT.max() > 1e-8 * mscale * fscale:
-                f = int(np.argmax(errT))
+            # purely relative norm-wise tolerance, row by row (scale robust): 1e-8 of
+            # (1-norm of the matrix rows) * (max-norm of the data) + |exact|
+            umax, bmax = np.abs(uc).max(), np.abs(bv).max()
+            magT = (aS * umax + aBS * bmax).reshape((nd, nf), order="F") + np.abs(T)
+            excT = (np.abs(Th - T) - 1e-8 * magT).max(axis=0)
+            excT[isneu] = -1.0
+            if excT.max() > 0:
+                f = int(np.argmax(excT))
                 kind = "translation" if not A.any() else ("rotation" if not (A + A.T).any() else "linear field")
                 return (f"{kind} A={A.tolist()} b={b.tolist()}: traction on face {f} (kind {int(kinds[f])}) "
                         f"is {Th[:, f].tolist()}, exact sigma n = {T[:, f].tolist()}")
             Uh = (DC @ uc.ravel("F") + DF @ bv.ravel("F")).reshape((nd, nf), order="F")
-            errU = np.abs(Uh - uf).max(axis=0)
-            errU[~isdir] = 0.0
-            dscale = max(1.0, np.abs(DC).max() if DC.size else 0.0, np.abs(DF).max() if DF.size else 0.0)
-            if errU.max() > 1e-8 * dscale * fscale:
-                f = int(np.argmax(errU))
+            magU = (aDC * umax + aDF * bmax).reshape((nd, nf), order="F") + np.abs(uf)
+            excU = (np.abs(Uh - uf) - 1e-8 * magU).max(axis=0)
+            excU[~isdir] = -1.0
+            if excU.max() > 0:
+                f = int(np.argmax(excU))
                 return (f"linear field A={A.tolist()} b={b.tolist()}: reconstructed displacement on "
                         f"Dirichlet face {f} is {Uh[:, f].tolist()}, exact {uf[:, f].tolist()}")
         return None
@@ -265,21 +311,22 @@ class C13(Prop):
     # ------------------------------------------------------------------ tie
     def _inst(self, case, res):
         g, bc = self._setup(case)
+        cc, fcs, fns = geom(g)
         d = 3 if g.dim == 3 else 2
         if d == 2:
-            for arr in (g.cell_centers, g.face_centers, g.face_normals):
+            for arr in (cc, fcs, fns):
                 assert not arr[2].any()
         return ("(mk_instV {} {} {} {} {} {} {} {} {} {} {})".format(
-            d, pts(g.cell_centers, d), pts(g.face_centers, d), pts(g.face_normals, d),
+            d, pts(cc, d), pts(fcs, d), pts(fns, d),
             pk(case["mu"]), pk(case["la"]), zlist(res["kinds"], zi),
             dcoo(res["stress"]), dcoo(res["bound_stress"]), dcoo(res["bdc"]), dcoo(res["bdf"])))
 
     def coq_case(self, case, res):
-        if res["neu_share_edge"] or res["singular"]:
-            return None  # outside the guard of the theorems (see known finding)
+        if res["neu_share_edge"] or res["singular"] or case.get("oracle_only") or tilted_partition(case):
+            return None  # outside the guard of the theorems / known findings / too large
         nb = sum(1 for k in res["kinds"] if k != 0)
         nn = sum(1 for k in res["kinds"] if abs(k) == 2)
-        return f"check_caseV {zi(res['nf'])} {zi(nb)} {zi(nn)} {self._inst(case, res)}"
+        return f"check_caseV2 {zi(res['nf'])} {zi(nb)} {zi(nn)} {self._inst(case, res)}"
 
     def coq_diag(self, case, res):
         return f"diag_caseV {self._inst(case, res)}"
@@ -290,6 +337,8 @@ class C13(Prop):
     def finding_key(self, case, res, why):
         if res is not None and res.get("singular"):
             return "singular-local-system"
+        if tilted_partition(case):
+            return "tilted-2d-partition-frame"
         if why.startswith("translation"):
             return "translation-not-zero"
         if why.startswith("rotation"):
@@ -315,5 +364,26 @@ class C13(Prop):
         d["grid"] = {k: (v if k != "pert" else f"<{len(v)} node offsets /64>") for k, v in case["grid"].items()}
         return d
 
+
+
+# The generated case files are dominated by the time Coq needs to read the literals (the
+# real matrices); the shared driver puts up to 400 cases into one file.  Smaller files let
+# its existing worker pool compile them in parallel.  Same terms, same verdicts.
+def _sharded_eval(pid, preamble, terms, shard=400, timeout=900, jobs=8, _orig=None):
+    return _orig(pid, preamble, terms, shard=(4 if pid in ("C11", "C13") else shard),
+                 timeout=timeout, jobs=jobs)
+
+
+def _install_sharding():
+    import functools
+    from harness import core
+    if getattr(core.coq_eval_bools, "_c11_sharded", False):
+        return
+    f = functools.partial(_sharded_eval, _orig=core.coq_eval_bools)
+    f._c11_sharded = True
+    core.coq_eval_bools = f
+
+
+_install_sharding()
 
 PROP = C13()
